@@ -210,7 +210,7 @@ def c07(tier, seed):
           q_query(tier, 5, frame_n=100, name="query_smallmtu")] + q_query_boundary(tier)
     if tier == "thorough":
         qs += [q_query(tier, 29), q_probe(tier, 8), q_query(tier, 3, frame_n=1500), q_query(tier, 3, frame_n=640, mtu_min=576, name="query_symmtu"),
-               q_query(tier, 5, frame_n=113, mtu_min=94, name="query_smallsym")]
+               q_query(tier, 5, frame_n=113, mtu_min=94, name="query_smallsym"), q_query_long(300, 9216)]
     return qs
 
 
@@ -300,14 +300,14 @@ def q_qltlv(name, frame_n=576, mtu_min=None, defines=None, K=2, icon_max=32768, 
 
 
 @prop("C08", ["hardware id contract: even number of bytes (<= 64) of NUL-free UCS-2LE, as the core recovers its length by scanning for a 16-bit NUL",
-              "request from the active mapper or while none is active",
+              "request from any station (the mapper-identity assertions, C05, apply only to requests from the active mapper or while none is active)",
               "reassembly = induction on the offset over the per-call relation (progress and containment asserted per call); data size <= 32768, MTU as stated per query",
               "the payload copy is checked through the contract of lltd_port_memcpy (dst[0..n) = src[0..n)): destination, source+offset and length of the single copy are asserted, readable/writable regions are asserted; bytes are not moved inside the solver (CBMC's own memcpy model with symbolic length and offset exhausts memory)"])
 def c08(tier, seed):
     def fam(tag, **kw):
         return [q_qltlv("icon_" + tag, defines=["QTYPE=0x0E"], **kw), q_qltlv("name_" + tag, defines=["QTYPE=0x11"], **kw),
                 q_qltlv("hwid_" + tag, defines=["QTYPE=0x13"], **kw), q_qltlv("other_" + tag, defines=["QTYPE_OTHER"], **kw)]
-    qs = fam("576") + [q_qltlv("alltypes_576"), q_qltlv("alltypes_symmtu", frame_n=9216, mtu_min=576)]
+    qs = fam("576") + [q_qltlv("alltypes_576"), q_qltlv("alltypes_symmtu", frame_n=9216, mtu_min=576), q_reset(tier, 2)]
     if tier == "thorough":
         qs += fam("1500", frame_n=1500) + fam("9216", frame_n=9216) + fam("symmtu", frame_n=9216, mtu_min=576, timeout=1800, mem_gb=16)
     return qs
@@ -383,7 +383,7 @@ def q_pair(K=2, query=False):
 @prop("C10", ["one descriptor per query (an Emit is a sequence of independent sendProbeMsg calls - C06); B's earlier observations (unrelated traffic) arbitrary but without this (Ethernet source, real source) pair, K bound stated",
               "delivery unmodified: the 32 captured bytes are copied to the head of B's MTU-sized receive buffer, remaining bytes arbitrary"])
 def c10(tier, seed):
-    qs = [q_pair(2), q_pair(2, query=True), q_emit_send()]
+    qs = [q_pair(2), q_pair(2, query=True), q_emit_send(), q_query(tier, 5, frame_n=100, name="query_smallmtu"), q_probe(tier, 2)]
     if tier == "thorough":
         qs += [q_pair(6), q_pair(6, query=True)]
     return qs
@@ -494,6 +494,13 @@ def c18(tier, seed):
                     bounds={"constructor": "symbolic choice of init_automata_mapping / enumeration / session / session_table_create", "allocations": "each of the first 8 may fail"},
                     desc="automata constructors under failing allocation: NULL or fully initialised, no dereference of a missing allocation, no leak"))
     return qs
+
+
+def q_query_long(n=300, mtu=9216):
+    return blkq("blk_query_long_n%d_%d" % (n, mtu), "h_query_long", live=["parseQuery"], K=1, frame_n=mtu, defines=["NLONG=%d" % n], unwind=n + 3, no_std_checks=True,
+                timeout=2400, mem_gb=24, extra=["--object-bits", "13"] if n > 1000 else [],
+                bounds={"record": "%d observations of arbitrary content (no uniqueness assumed)" % n, "MTU": mtu},
+                desc="long observation record: count arithmetic beyond 8 bits at a jumbo MTU - all reported, all retired")
 
 
 def q_probe_room(K=2):
